@@ -63,7 +63,7 @@ CHECKS["C04"] = dict(
     engine="E3-link",
     level="exploration",
     parts=[
-        dict(name="link", mode="asan", defs=["-DLINK_FAULTS=0", "-w"], harness=["harness/C04_C05_link.cpp"], igris=_LINK_IGRIS, runs=dict(quick=60000, thorough=3000000)),
+        dict(name="link", mode="asan", defs=["-DLINK_FAULTS=0", "-w"], harness=["harness/C04_C05_link.cpp", "harness/C04_gateway.cpp"], igris=_LINK_IGRIS, runs=dict(quick=60000, thorough=3000000)),
         dict(name="threads", mode="thr", defs=["-w"], harness=[("harness/C04_thr_prog.cpp", ["+igris-san"]), "harness/C04_thr.cpp", "sim/thr/thrsim.cpp"],
              igris=["igris/protocols/gstuff.cpp", "igris/protocols/gstuff_v1/gstuff.c"], libs=["-rdynamic"], runs=dict(quick=6000, thorough=300000)),
     ],
@@ -85,7 +85,7 @@ CHECKS["C05"] = dict(
     level="fault_enumeration",
     mode="asan",
     defs=["-DLINK_FAULTS=1", "-w"],
-    harness=["harness/C04_C05_link.cpp"],
+    harness=["harness/C04_C05_link.cpp", "harness/C04_gateway.cpp"],
     igris=_LINK_IGRIS,
     runs=dict(quick=30000, thorough=500000),
     design_ref="DESIGN.md 4.3, 5 (C05), 11 A.2",
